@@ -8,6 +8,8 @@ again ("a fixed entry suppresses nothing").  /repo itself is never touched; the 
 Results: fix_regress.json + a table on stdout.
 """
 import json, os, subprocess, sys, time
+sys.path.insert(0, os.path.dirname(os.path.abspath(__file__)))
+from corpus import harvest
 
 V = os.path.dirname(os.path.dirname(os.path.abspath(__file__)))
 REPO = "/repo"
@@ -49,13 +51,14 @@ def main():
                     t0 = time.time()
                     p = sh([os.path.join(V, "check"), prop, "--tier", tier], cwd=V, env=dict(os.environ, VERIF_REPO=wt, VERIF_SEED=os.environ.get("VERIF_SEED", "1")))
                     viol = [l for l in p.stdout.splitlines() if l.startswith("VIOLATION")]
+                    if viol: harvest(prop, viol, f"revert of fix {commit} ({tier})")
                     res["checks"][prop] = {"exit": p.returncode, "violations": viol[:6], "wall_s": round(time.time() - t0, 1),
                                            "expected_classes": [e["class"] for e in entries if e["property"] == prop]}
         finally:
             sh(["git", "-C", REPO, "worktree", "remove", "--force", wt])
             sh(["git", "-C", REPO, "worktree", "prune"])
         res["reported_again"] = {c: bool(v["exit"] != 0 and v["violations"]) for c, v in res["checks"].items()}
-        results[commit] = res
+        results[commit + ":" + tier] = res
         json.dump(results, open(out_path, "w"), indent=1)
         print(commit, res.get("error", ""), res["reported_again"], flush=True)
 
